@@ -154,6 +154,14 @@ def convex_problem(case):
             return lam + 0.25
     else:
         raise ValueError(fam)
+    # letter "narrow": the same problem in variables 1e-9 times smaller (box sides far
+    # narrower than any finite-difference step): F(x) = f(x / narrow)
+    if case.get("narrow"):
+        nr = float(case["narrow"])
+        f_, g_ = f, g
+        f = lambda x: f_(x / nr)            # noqa: E731
+        g = lambda x: g_(x / nr) / nr       # noqa: E731
+        lb, ub, x0, xs = lb * nr, ub * nr, x0 * nr, xs * nr
     p = Problem()
     p.f, p.g, p.lb, p.ub, p.x0, p.H, p.xs, p.lip = f, g, lb, ub, x0, H, xs, lip
     p.bounds = bounds_rep(np.array([lb, ub]).T, case.get("brep"))
